@@ -40,7 +40,7 @@ ASSUMPTIONS = [
     "promptness is judged at quiescent points only (nothing runnable, no due timer)",
 ]
 BOUNDS_DOC = {"quick": "M<=1, S<=2; windows {0,1,7,65535}; <=3 streams", "thorough": "M<=2, S<=3, trio R<=1"}
-BUDGET = {"quick": 100, "thorough": 1500}
+BUDGET = {"quick": 300, "thorough": 1800}
 
 IWS = h2.settings.SettingCodes.INITIAL_WINDOW_SIZE
 MFS = h2.settings.SettingCodes.MAX_FRAME_SIZE
@@ -95,8 +95,14 @@ STREAMSETS = [("one",), ("three",), ("big",), ("three", "one"), ("big", "three")
 CREDITS = ["none", "stream_then_conn", "conn_then_stream", "trickle", "settings_up", "settings_down_up", "rst_first", "prio"]
 
 
+UPLOAD_FRAMES = 300  # 1 data byte + 255 padding each: 257 flow-controlled bytes per frame, 77 100 in total
+
+
 def scenarios(tier: str) -> List[Any]:
     out = []
+    for engine in ("asyncio", "trio"):
+        out.append((engine, "upload", 255, (), "padded"))
+        out.append((engine, "upload", 0, (), "plain"))
     for engine in ("asyncio", "trio"):
         for win in ((0, 7, 65535) if tier == "quick" else (0, 1, 7, 65535)):
             for mfs in (16384, 20000):
@@ -105,7 +111,9 @@ def scenarios(tier: str) -> List[Any]:
                         if tier == "quick":
                             if mfs == 20000 and not (win == 65535 and "big" in ss):
                                 continue
-                            if engine == "trio" and (win in (1,) or len(ss) > 2 or cr in ("settings_down_up",)):
+                            if engine == "trio" and (win != 0 or len(ss) > 2 or cr in ("settings_down_up", "trickle", "prio")):
+                                continue
+                            if len(ss) == 3 and cr not in ("stream_then_conn", "rst_first", "prio"):
                                 continue
                         if win == 65535 and cr in ("trickle", "settings_down_up") and "huge" not in ss and tier == "quick":
                             continue
@@ -114,6 +122,8 @@ def scenarios(tier: str) -> List[Any]:
 
 
 def bounds(tier: str, params: Any) -> dict:
+    if params[1] == "upload":
+        return {"M": 0, "S": 0, "R": 0}
     if tier == "quick":
         return {"M": 1, "S": 2, "R": 0}
     return {"M": 2, "S": 3, "R": 1 if params[0] == "trio" else 0}
@@ -123,7 +133,46 @@ def sids_of(ss: tuple) -> List[int]:
     return [1 + 2 * i for i in range(len(ss))]
 
 
+def build_upload(params: Any) -> tuple:
+    engine, _, pad, _, _ = params
+    n = UPLOAD_FRAMES if pad else 70
+    size = 1 if pad else 1000
+    client = [("cmd", 0, "preface"), ("cmd", 0, "headers", 1, h2_request_headers(b"POST", b"/up"), False)]
+    for i in range(n):
+        client.append(("cmd", 0, "datap", 1, bytes([48 + i % 10]) * size, pad, i == n - 1))
+    apps = {"http": [("recv_body",), ("send", {"type": "http.response.start", "status": 200, "headers": []}),
+                     ("send", {"type": "http.response.body", "body": b"done", "more_body": False})]}
+    conn = {"carrier": "h2", "tls": True, "alpn": "h2", "auto_ack": True}
+    sc = {"level": "conn", "conns": {0: conn}, "client_factory": make_client, "apps": apps,
+          "config": {"keep_alive_timeout": 5}, "sources": [("client", client)], "midflight": False, "sigs": False}
+    return engine, sc
+
+
+def oracle_upload(w: Any, params: Any) -> List[dict]:
+    engine, _, pad, _, _ = params
+    out: List[dict] = []
+    n = UPLOAD_FRAMES if pad else 70
+    size = 1 if pad else 1000
+    want = b"".join(bytes([48 + i % 10]) * size for i in range(n))
+    rec = w.conns[0]
+    inst = w.instances[0] if w.instances else None
+    got = b"" if inst is None else b"".join(m.get("body", b"") for m in inst.delivered() if m["type"] == "http.request")
+    sent = sum(1 for _, e in w.driver.fired if e[0] == "cmd" and e[2] == "datap")
+    if rec.client.h2.error is not None:
+        out.append(V("client-rejects-frame", f"upload:pad{pad}", rec.client.h2.error))
+    if sent < n:
+        out.append(V("upload-stalled", f"upload:pad{pad}",
+                     f"client could send only {sent} of {n} DATA frames: the server returned too little credit "
+                     f"(app received {len(got)} bytes)"))
+    elif got != want:
+        out.append(V("data-mismatch", f"upload:pad{pad}", f"app received {len(got)} of {len(want)} bytes"))
+    out.extend(internal_errors(w))
+    return out
+
+
 def build(params: Any) -> tuple:
+    if params[1] == "upload":
+        return build_upload(params)
     engine, win, mfs, ss, cr = params
     sids = sids_of(ss)
     client = [("cmd", 0, "preface")]
@@ -184,6 +233,8 @@ def monitor(w: Any) -> None:
 
 
 def oracle(w: Any, params: Any) -> List[dict]:
+    if params[1] == "upload":
+        return oracle_upload(w, params)
     engine, win, mfs, ss, cr = params
     out: List[dict] = []
     rec = w.conns[0]
